@@ -193,10 +193,20 @@ func (cfg *Config) paramExp(pe *syntax.ParamExp) (string, error) {
 				}
 				return n
 			}
+			total := len(rs)
 			if pe.Slice.Offset != nil {
 				rs = rs[slicePos(sliceOffset):]
 			}
 			if pe.Slice.Length != nil {
+				offset := sliceOffset
+				if offset < 0 {
+					offset += total
+				}
+				if set && sliceLen < 0 && offset >= 0 && offset <= total && total+sliceLen < offset {
+					// A negative length is an end position counted from
+					// the end, which must not lie before the offset.
+					return "", fmt.Errorf("%s: substring expression < 0", name)
+				}
 				rs = rs[:slicePos(sliceLen)]
 			}
 			str = string(rs)
